@@ -22,13 +22,6 @@ Local Open Scope nat_scope.
 
 Definition flag_clear (st : state) : Prop := cache_get (st_cache st) returned_key = None.
 
-(* The cache of the model is an association LIST: [cache_del] removes the first entry of a key
-   only.  A Python dict has at most one entry per key; [flag_wf] is that fact for the flag key
-   ("deleting the flag clears it").  It holds in every flag-clear state and is preserved by every
-   action, so it is an invariant of every run that starts with the flag clear. *)
-Definition flag_wf (st : state) : Prop :=
-  cache_get (cache_del (st_cache st) returned_key) returned_key = None.
-
 Definition at_end (fr : frame) (st : state) : Prop :=
   fr_ptr fr = List.length (to_data (nth_tape st (fr_tid fr))).
 
@@ -43,9 +36,9 @@ Definition sem (m : mode) (fr : frame) (st : state) : Prop :=
   match m with
   | M0 => flag_clear st
   | ME => flag_clear st /\ at_end fr st
-  | M1 => flag_wf st
-  | M1S => ~ flag_clear st /\ flag_wf st
-  | M2 => at_end fr st /\ flag_wf st
+  | M1 => True
+  | M1S => ~ flag_clear st
+  | M2 => at_end fr st
   end.
 
 Definition quiet (m : mode) : Prop := m = M0 \/ m = ME.        (* a raise is allowed only here *)
@@ -101,31 +94,8 @@ Proof.
 Qed.
 
 (* ------------------------------------------------------------------------------------------ *)
-(* cache facts                                                                                *)
+(* modes                                                                                      *)
 (* ------------------------------------------------------------------------------------------ *)
-
-Lemma cache_clear_del (c : cache) (k : ckey) :
-  cache_get c k = None -> cache_get (cache_del c k) k = None.
-Proof.
-  induction c as [|[k0 v0] c IH]; simpl; [reflexivity|].
-  destruct (ckey_eqb k0 k) eqn:E; [discriminate|]. intro H. simpl. rewrite E. apply IH. exact H.
-Qed.
-
-Lemma cache_wf_set (c : cache) (k : ckey) (v : cval) :
-  cache_get (cache_del c k) k = None -> cache_get (cache_del (cache_set c k v) k) k = None.
-Proof.
-  induction c as [|[k0 v0] c IH]; simpl.
-  - intros _. rewrite ckey_eqb_refl. reflexivity.
-  - destruct (ckey_eqb k0 k) eqn:E; simpl.
-    + intro H. rewrite ckey_eqb_refl. exact H.
-    + rewrite E. simpl. rewrite E. exact IH.
-Qed.
-
-Lemma clear_wf st : flag_clear st -> flag_wf st.
-Proof. apply cache_clear_del. Qed.
-
-Lemma sem_wf m fr st : sem m fr st -> flag_wf st.
-Proof. destruct m; simpl; intuition auto using clear_wf. Qed.
 
 Lemma quiet_clear m fr st : quiet m -> sem m fr st -> flag_clear st.
 Proof. intros [->| ->]; simpl; intuition. Qed.
@@ -142,7 +112,6 @@ Definition run_ok (run : nat -> state -> outcome unit) : Prop :=
   forall tid s, flag_clear s ->
     match run tid s with
     | Raised _ _ s' => flag_clear s'
-    | Done _ _ s' => flag_wf s'
     | _ => True
     end.
 
@@ -179,9 +148,9 @@ Proof.
     destruct m; simpl in Hs.
     + exists ME. split; [exact H|]. split; [exact Hs|reflexivity].
     + exists ME. split; [exact H|]. split; [apply Hs|reflexivity].
-    + exists M2. split; [exact H|]. split; [reflexivity|exact Hs].
-    + exists M2. split; [exact H|]. split; [reflexivity|apply Hs].
-    + exists M2. split; [exact H|]. split; [reflexivity|apply Hs].
+    + exists M2. split; [exact H|reflexivity].
+    + exists M2. split; [exact H|reflexivity].
+    + exists M2. split; [exact H|reflexivity].
   - (* ACount *) exists M0. split; [apply HQ|exact Hc].
   - (* ACountIncr *) exists M0. split; [apply HQ|exact Hc].
   - (* ACacheGet *) exists M0. split; [apply HQ|exact Hc].
@@ -190,21 +159,20 @@ Proof.
     change (cache_get (cache_set (st_cache st) (KBytes k) v) returned_key = None).
     rewrite cache_get_set_other by reflexivity. exact Hc.
   - (* AReturnedSet *)
-    destruct H as [Hm HQ]. exists M2. split; [exact HQ|]. simpl.
-    assert (He : at_end fr st) by (destruct Hm as [->| ->]; simpl in Hs; apply Hs).
-    split; [exact He|]. unfold flag_wf. simpl. apply cache_wf_set. exact (sem_wf _ _ _ Hs).
-  - (* AReturnedClear *)
-    exists M0. split; [exact H|]. exact (sem_wf _ _ _ Hs).
+    destruct H as [Hm HQ]. exists M2. split; [exact HQ|].
+    change (at_end fr st). destruct Hm as [->| ->]; simpl in Hs; apply Hs.
+  - (* AReturnedClear: deleting the flag clears it *)
+    exists M0. split; [exact H|]. apply cache_get_del_same.
   - (* AReturnedTest *)
     destruct m; simpl in Hs.
     + unfold flag_clear in Hs. rewrite Hs. exists M0. split; [exact H|exact Hs].
     + destruct Hs as [Hs He]. unfold flag_clear in Hs. rewrite Hs. exists ME. split; [exact H|]. split; assumption.
     + destruct H as [Ht Hf]. destruct (cache_get (st_cache st) returned_key) eqn:E.
-      * exists M1S. split; [exact Ht|]. split; [|exact Hs]. unfold flag_clear. rewrite E. discriminate.
+      * exists M1S. split; [exact Ht|]. simpl. unfold flag_clear. rewrite E. discriminate.
       * exists M0. split; [exact Hf|exact E].
-    + destruct Hs as [Hn Hw]. destruct (cache_get (st_cache st) returned_key) eqn:E.
-      * exists M1S. split; [exact H|]. split; assumption.
-      * exfalso. apply Hn. exact E.
+    + destruct (cache_get (st_cache st) returned_key) eqn:E.
+      * exists M1S. split; [exact H|]. simpl. unfold flag_clear. rewrite E. discriminate.
+      * exfalso. apply Hs. exact E.
     + exists M2. split; [apply H|exact Hs].
   - (* AConfig *) exists M0. split; [apply HQ|exact Hc].
   - (* APrim *) exists M0. split; [apply HQ|exact Hc].
@@ -213,18 +181,18 @@ Proof.
   - (* ADefGet *) exists M0. split; [apply HQ|exact Hc].
   - (* ACallDef *)
     unfold after_run. sub_run Hc; try exact I; [|exact Hr].
-    exists M1. split; [exact HQ|exact Hr].
+    exists M1. split; [exact HQ|exact I].
   - (* ARunSub *)
     unfold after_run. sub_run Hc; try exact I; [|exact Hr].
-    exists M1. split; [exact HQ|exact Hr].
+    exists M1. split; [exact HQ|exact I].
   - (* ATrySub *)
     sub_run Hc; try exact I.
-    + exists M1. split; [apply HQ|exact Hr].
+    + exists M1. split; [apply HQ|exact I].
     + exists M0. split; [apply HQ|exact Hr].
   - (* ALoopNew *) exists M0. split; [apply HQ|exact Hc].
   - (* ARunLoop *)
     unfold after_run. sub_run Hc; try exact I; [|exact Hr].
-    exists M1. split; [exact HQ|exact Hr].
+    exists M1. split; [exact HQ|exact I].
   - (* ALog *) exists M0. split; [apply HQ|exact Hc].
 Qed.
 
@@ -576,17 +544,17 @@ Proof.
   intro H. cbn [run_tape]. apply Nat.leb_gt in H. rewrite H. reflexivity.
 Qed.
 
-(* the invariant, with the well-formedness of the flag entry carried along *)
+(* the discipline of one activation of run_tape *)
 Definition tape_post (o : outcome unit) : Prop :=
   match o with
-  | Done _ fr' st' => (flag_clear st' \/ at_end fr' st') /\ flag_wf st'
+  | Done _ fr' st' => flag_clear st' \/ at_end fr' st'
   | Raised _ _ st' => flag_clear st'
   | _ => True
   end.
 
 Lemma tape_post_run_ok run : (forall t s, flag_clear s -> tape_post (run t s)) -> run_ok run.
 Proof.
-  intros H t s Hs. specialize (H t s Hs). destruct (run t s); simpl in *; auto. apply H.
+  intros H t s Hs. specialize (H t s Hs). destruct (run t s); simpl in *; auto.
 Qed.
 
 (* one instruction, run from a flag-clear state by an activation of tape [tid] *)
@@ -595,7 +563,7 @@ Lemma instr_inv f tid ptr st :
   flag_clear st ->
   match interp orc cfg (fun t s => run_tape orc cfg f t 0 s) (dispatch (code_at st tid ptr))
                {| fr_tid := tid; fr_ptr := S ptr |} st with
-  | Done _ fr' st' => fr_tid fr' = tid /\ (flag_clear st' \/ at_end fr' st') /\ flag_wf st'
+  | Done _ fr' st' => fr_tid fr' = tid /\ (flag_clear st' \/ at_end fr' st')
   | Raised _ _ st' => flag_clear st'
   | _ => True
   end.
@@ -609,11 +577,11 @@ Proof.
                 {| fr_tid := tid; fr_ptr := S ptr |} st) as Hp.
   destruct (interp orc cfg _ _ _ st) as [a fr' st'|e fr' st'| |w]; try exact I; [|exact Hi].
   destruct Hi as (m' & Hf & Hs). destruct Hp as (Ht & _). simpl in Ht.
-  split; [exact Ht|]. split; [|exact (sem_wf _ _ _ Hs)].
+  split; [exact Ht|].
   destruct Hf as [->|[->| ->]]; simpl in Hs.
   - left. exact Hs.
   - left. apply Hs.
-  - right. apply Hs.
+  - right. exact Hs.
 Qed.
 
 Theorem run_tape_inv : forall fuel tid ptr st,
@@ -624,16 +592,16 @@ Proof.
   - rewrite run_tape_unfold by exact Hlt.
     pose proof (instr_inv f tid ptr st (fun t s => IH t 0 s) Hc) as Hi.
     destruct (interp orc cfg _ _ _ st) as [a fr' st'|e fr' st'| |w]; try exact I; [|exact Hi].
-    destruct Hi as (Ht & [Hc'|He] & Hw).
+    destruct Hi as (Ht & [Hc'|He]).
     + apply IH. exact Hc'.
-    + unfold at_end in He. rewrite Ht in He.
+    + (* the instruction returned: the pointer is at the end, the loop stops *)
+      unfold at_end in He. rewrite Ht in He.
       rewrite run_tape_at_end by exact He.
-      destruct f; [exact I|]. simpl. split; [right; exact He|exact Hw].
-  - cbn [run_tape]. apply Nat.leb_le in Hge. rewrite Hge. simpl.
-    split; [left; exact Hc|apply clear_wf; exact Hc].
+      destruct f; [exact I|]. simpl. right. exact He.
+  - cbn [run_tape]. apply Nat.leb_le in Hge. rewrite Hge. simpl. left. exact Hc.
 Qed.
 
-(* item 5, as stated *)
+(* item 5 *)
 Theorem run_tape_discipline : forall fuel tid ptr st,
   flag_clear st ->
   match run_tape orc cfg fuel tid ptr st with
@@ -641,10 +609,7 @@ Theorem run_tape_discipline : forall fuel tid ptr st,
   | Raised _ _ st' => flag_clear st'
   | _ => True
   end.
-Proof.
-  intros fuel tid ptr st Hc. pose proof (run_tape_inv fuel tid ptr st Hc) as H.
-  destruct (run_tape orc cfg fuel tid ptr st); simpl in *; auto. apply H.
-Qed.
+Proof. exact run_tape_inv. Qed.
 
 (* ------------------------------------------------------------------------------------------ *)
 (* 6a: every fetch sees a clear flag                                                          *)
@@ -668,7 +633,7 @@ Proof.
   intros Hc _.
   pose proof (instr_inv f tid ptr st (fun t s => run_tape_inv f t 0 s) Hc) as Hi.
   destruct (interp orc cfg _ _ _ st) as [a fr' st'|e fr' st'| |w]; try exact I; [|exact Hi].
-  destruct Hi as (Ht & [Hc'|He] & _); split; try exact Ht; intro Hlt; [exact Hc'|].
+  destruct Hi as (Ht & [Hc'|He]); split; try exact Ht; intro Hlt; [exact Hc'|].
   unfold at_end in He. rewrite Ht in He. lia.
 Qed.
 
@@ -692,9 +657,8 @@ Lemma auth_rest_cons fuel s rest prev st :
     end.
 Proof. reflexivity. Qed.
 
-Theorem auth_scripts_start_clear st prev s :
-  flag_wf st -> flag_clear (next_script_state st prev s).
-Proof. intro H. exact H. Qed.
+Theorem auth_scripts_start_clear st prev s : flag_clear (next_script_state st prev s).
+Proof. apply cache_get_del_same. Qed.
 
 (* the discipline of every script run by auth_rest: it starts with the flag clear, a raise leaves
    the flag clear, a normal end leaves the flag clear or the pointer at the end *)
@@ -712,15 +676,14 @@ Fixpoint auth_rest_disc (fuel : nat) (scripts : list bytes) (prev : nat) (st : s
     end
   end.
 
-Theorem auth_rest_discipline fuel scripts : forall prev st,
-  flag_wf st -> auth_rest_disc fuel scripts prev st.
+Theorem auth_rest_discipline fuel scripts : forall prev st, auth_rest_disc fuel scripts prev st.
 Proof.
-  induction scripts as [|s rest IH]; intros prev st Hw; cbn [auth_rest_disc]; [exact I|].
-  cbv zeta. split; [apply auth_scripts_start_clear; exact Hw|].
+  induction scripts as [|s rest IH]; intros prev st; cbn [auth_rest_disc]; [exact I|].
+  cbv zeta. split; [apply auth_scripts_start_clear|].
   pose proof (run_tape_inv fuel (List.length (st_tapes st)) 0 (next_script_state st prev s)
-                (auth_scripts_start_clear st prev s Hw)) as H.
+                (auth_scripts_start_clear st prev s)) as H.
   destruct (run_tape orc cfg fuel _ 0 _) as [a fr' st'|e fr' st'| |w]; simpl in H; try exact I; [|exact H].
-  destruct H as [H1 H2]. split; [exact H1|]. apply IH. exact H2.
+  split; [exact H|]. apply IH.
 Qed.
 
 Lemma init_state_clear script vals :
@@ -763,7 +726,7 @@ Proof.
   split; [apply init_state_clear; exact H|].
   pose proof (run_script_discipline fuel s vals H) as Hr.
   destruct (run_script orc cfg fuel s vals) as [a fr' st'|e fr' st'| |w]; simpl in Hr; try exact I; [|exact Hr].
-  destruct Hr as [H1 H2]. split; [exact H1|]. apply auth_rest_discipline. exact H2.
+  split; [exact Hr|]. apply auth_rest_discipline.
 Qed.
 
 End Run.
